@@ -30,3 +30,12 @@ CLAIMED["C04"] = dict(engine="E1", category="exploration", design_ref="DESIGN.md
     technique="bounded-exhaustive enumeration of every free-parameter subset x parameter lattice vs complex-step derivatives of an independent model and the inverse Fisher matrix",
     text="For every lattice component (60) every one of the 63 free-parameter subsets, for 6-12 two-component models every one of the 4095 subset pairs, and for 3-4 components the 4^n structured subsets, the real jacobian / lmfit_jacobian / covar_errors are executed on full, NaN-masked and single-row pixel sets with and without errs / B / C weighting and compared with complex-step derivatives (exact to rounding) and sqrt(diag(inv(Fisher))) at the parameter's own global index.",
     note="Trusts numpy linear algebra and the 20-line reference model; the error clause is skipped for ill-conditioned Fisher matrices (cond > 1e10).")
+ENGINES.append(dict(name="E2", path="mc/histories.py", serves_properties=["C08", "C12"], kind_free_text="explicit-state breadth-first search over operation histories; each transition executes the real method on a copy of the real objects and the same operation on a reference set model; states de-duplicated on the full internal representation; invariants evaluated in every state"))
+CLAIMED["C08"] = dict(engine="E2", category="model_checking", design_ref="DESIGN.md section 3, C08",
+    technique="explicit-state BFS over all operation histories (30-operation alphabet, depth 3 quick / 5 thorough) of real Region objects with a HEALPix set model as oracle",
+    text="All histories over a 30-operation alphabet (add circles/polygons/pixels at equal and lower depth, union with equal/finer/coarser regions, difference, intersection, symmetric difference, the three queries, save+load) on four registers of depth 2/3/3/5 are explored breadth-first on the real objects; in every distinct implementation state membership at every deepest-level pixel centre and at off-centre points, the deepest-level set, the area, single representation and integral ids are compared with the set model. combine_regions: all 96 container-field subsets.",
+    note="healpy is the trusted geometry kernel; depth bound as stated; states violating an invariant are reported and not expanded.")
+CLAIMED["C12"] = dict(engine="E2", category="model_checking", design_ref="DESIGN.md section 3, C12",
+    technique="exports taken in every distinct region state reached by the E2 history search plus bounded-exhaustive fixed regions x maxdepth 1..12, decoded by an independent NUNIQ / DS9 / pickle reader",
+    text="Every distinct internal representation of every register reached by the history search (depth 2 quick / 3 thorough), i.e. before and after demoting queries, is written as MOC FITS, DS9 and .mim and decoded independently (NUNIQ -> order, ipix -> deepest level; polygon vertices vs healpy pixel corners; load equality and fixpoint); plus {empty, single, circle, whole sky} x maxdepth 1..12 x {fresh, after query}.",
+    note="healpy.boundaries is the trusted pixel outline; DS9 vertices compared at the printed precision.")
